@@ -29,7 +29,7 @@ tests=$(timeout 900 /venv/bin/python -m pytest -q -p no:cacheprovider --timeout=
 echo "SEED $N: demo clean rc=$rc_clean ($(cat _clean.out | cut -c1-80)) patched rc=$rc_patched ($(cat _patched.out | cut -c1-80)) tests: $tests"
 cd /verif
 for Q in $P "$@"; do
-  out=$(VERIF_OUT=/verif/build/selftest_out VERIF_REPO=$W timeout 2400 ./check $Q 2>&1 | grep -E "^(VIOLATION|OK|KNOWN)" | head -3 | tr '\n' ' ')
+  out=$(VERIF_OUT=/verif/build/selftest_out VERIF_REPO=$W timeout 2400 ./check $Q 2>&1 | grep -E "^(VIOLATION|OK)" | head -2 | tr '\n' ' ')
   echo "SEED $N: check $Q -> $out"
   python3 - "$DST/meta.json" "$Q" "$out" "$rc_clean" "$rc_patched" "$tests" <<'PY'
 import json,sys
